@@ -820,6 +820,18 @@ func (r *Reconciler) evictPod(ctx context.Context, job *sev1alpha1.PodMigrationJ
 		return false, reconcile.Result{}, err
 	}
 
+	// The same-node check made when the Reservation got scheduled is cached in job.Status.NodeName;
+	// re-validate it against the Pod that is evicted now, it may have been replaced since.
+	if job.Spec.ReservationOptions != nil && job.Spec.ReservationOptions.ReservationRef != nil {
+		reservationObj, err := r.reservationInterpreter.GetReservation(ctx, job.Spec.ReservationOptions.ReservationRef)
+		if err != nil {
+			return false, reconcile.Result{}, err
+		}
+		if aborted, err := r.abortJobIfReserveOnSameNode(ctx, job, reservationObj); aborted {
+			return false, reconcile.Result{}, err
+		}
+	}
+
 	if job.Spec.DeleteOptions == nil {
 		job.Spec.DeleteOptions = r.args.DefaultDeleteOptions
 	}
